@@ -46,6 +46,11 @@ def qRequired : ActName → Bool
   | .emitRawWithoutTokenAndEof | .emitTag | .finishTagName => true
   | _ => false
 
+/-- actions that read the byte under the cursor -/
+def readsInp : ActName → Bool
+  | .updateTagNameHash | .finishAttrValue => true
+  | _ => false
+
 def absCalls : List Call → Ab → Option Ab
   | [], ab => some ab
   | cl :: cs, ab =>
